@@ -154,6 +154,42 @@ func genArgvFor(g *Gen, profile string, p *ProgDef) []string {
 			}
 		}
 		return out
+	case "order":
+		// `--` directly behind a command name now and then (the command level decides what stops)
+		out := g.GenArgv(p)
+		for i, t := range out {
+			isCmd := false
+			for _, c := range p.Root.Cmds {
+				if c.Name == t {
+					isCmd = true
+				}
+			}
+			if isCmd && g.pct(25) {
+				out = append(out[:i+1], append([]string{"--"}, out[i+1:]...)...)
+				break
+			}
+		}
+		return out
+	case "multi":
+		// now and then an []int option gets a range wider than any plausible internal chunk or cap,
+		// attached or as its first mandatory value
+		if g.pct(2) {
+			for _, o := range visibleOpts([]*CmdDef{p.Root}, p) {
+				if o.Kind == KIntRep {
+					out := []string{}
+					if g.pct(50) {
+						out = append(out, "--"+o.Name+"=0..70000")
+					} else {
+						out = append(out, "--"+o.Name, "0..70000")
+					}
+					for i := g.r.Intn(3); i > 0; i-- {
+						out = append(out, g.pick(intPool))
+					}
+					return out
+				}
+			}
+		}
+		return g.GenArgv(p)
 	case "help":
 		// ask for the help of a command chosen anywhere in the tree, in every spelling the library
 		// accepts: the help option before, inside or after the command path, the help command at
@@ -237,6 +273,41 @@ func genArgvFor(g *Gen, profile string, p *ProgDef) []string {
 		}
 		return out
 	case "bundle":
+		if g.pct(10) {
+			// two greedy options in one bundle: the first takes its values and refuses the next token
+			// for its format, the second takes that token; then `--` and a tail that must stay untouched
+			var a, b *OptDef
+			vis := visibleOpts([]*CmdDef{p.Root}, p)
+			for i := range vis {
+				o := &vis[i]
+				if len([]rune(o.Name)) != 1 || o.Name == "-" {
+					continue
+				}
+				if a == nil && (o.Kind == KIntRep || o.Kind == KFloatRep || o.Kind == KMap) {
+					a = o
+				} else if b == nil && o.Kind == KStrRep {
+					b = o
+				}
+			}
+			if a != nil && b != nil {
+				out := []string{"-" + a.Name + b.Name}
+				for i := 0; i < a.Min; i++ {
+					out = append(out, g.cleanValue(*a))
+				}
+				for i := 0; i < b.Min; i++ {
+					out = append(out, []string{"foo", "word", "x y", "bar"}[g.r.Intn(4)])
+				}
+				out = append(out, "--")
+				for i := g.r.Intn(4); i > 0; i-- {
+					if g.pct(50) {
+						out = append(out, g.knownToken(p, []*CmdDef{p.Root}))
+					} else {
+						out = append(out, g.pick(wordPool))
+					}
+				}
+				return out
+			}
+		}
 		path := []*CmdDef{p.Root}
 		out := []string{}
 		n := 1 + g.r.Intn(4)
